@@ -1,2 +1,151 @@
-import Pakhi.Model.Interp
-import Pakhi.Model.Parser
+/-
+  C06 — lists and records are shared by reference; indexed write then read agree.
+
+  Heap algebra on the two arenas.  A container value is an arena index, so assignment, argument
+  passing, returning and storing copy the index: every alias denotes the same cell.  Proved here:
+  write-then-read on the addressed cell, the frame property stated on *cells* (hence sound under
+  any aliasing), the path walker crossing lists and records in any mix, fresh allocation, and that
+  list concatenation yields a cell distinct from both operands which are left unchanged.
+  Statement refinement: "reading the same path yields v" needs the addressed cell not to be one of
+  the cells the path itself walks through (`a[০] = a` makes a cycle in which the path changes
+  meaning); for tree- and DAG-shaped data this always holds.
+-/
+import Pakhi.Lemmas.Assoc
+namespace Pakhi
+namespace C06
+
+theorem list_set_get_same {α} (l : List α) (p : Nat) (v : α) (h : p < l.length) : (l.set p v)[p]? = some v := by
+  simp [h]
+
+theorem list_set_get_other {α} (l : List α) (p q : Nat) (v : α) (h : p ≠ q) : (l.set p v)[q]? = l[q]? := by
+  simp [h]
+
+/-- one-level write to a list then read of the same position gives the value written -/
+theorem write_read_list (cur : List Stmt) (m : Meta) (a : Nat) (n : Num.Bits) (v : Val) (h h' : Heap)
+    (hw : assignPath cur (.list a) [.pos n] v h = .ok h') :
+    indexVal m (.list a) (.num n) h' = .ok v := by
+  simp only [assignPath] at hw
+  cases hl : h.lists[a]? with
+  | none => simp [hl] at hw
+  | some l =>
+    simp only [hl] at hw
+    cases hp : listPosition n l.length with
+    | none => simp [hp, stmtErr] at hw; cases cur <;> simp [mkErr, unexpected] at hw
+    | some p =>
+      simp [hp] at hw
+      subst hw
+      have hlt : p < l.length := by
+        unfold listPosition at hp; split at hp <;> simp at hp; rename_i hc; simp at hc; omega
+      have ha : a < h.lists.length := by
+        have := List.getElem?_eq_some_iff.mp hl; exact this.1
+      simp [indexVal, List.getElem?_set, ha, hp, hlt]
+
+/-- one-level write to a record then read of the same key gives the value written (the key is added
+    if it was missing) -/
+theorem write_read_record (cur : List Stmt) (m : Meta) (a : Nat) (k : Str) (v : Val) (h h' : Heap)
+    (hw : assignPath cur (.record a) [.key k] v h = .ok h') :
+    indexVal m (.record a) (.str k) h' = .ok v := by
+  simp only [assignPath] at hw
+  cases hr : h.records[a]? with
+  | none => simp [hr] at hw
+  | some r =>
+    simp [hr] at hw
+    subst hw
+    have ha : a < h.records.length := (List.getElem?_eq_some_iff.mp hr).1
+    simp [indexVal, List.getElem?_set, ha, assocGet_set_same]
+
+/-- frame: a one-level list write changes exactly the addressed cell: every other list, every other
+    position of the same list and every record are unchanged -/
+theorem write_frame_list (cur : List Stmt) (a : Nat) (n : Num.Bits) (v : Val) (h h' : Heap)
+    (hw : assignPath cur (.list a) [.pos n] v h = .ok h') :
+    h'.records = h.records ∧ h'.freeLists = h.freeLists ∧ h'.freeRecords = h.freeRecords ∧ h'.lists.length = h.lists.length ∧
+    (∀ b, b ≠ a → h'.lists[b]? = h.lists[b]?) ∧
+    (∀ l l' p, h.lists[a]? = some l → h'.lists[a]? = some l' → listPosition n l.length = some p →
+        l'.length = l.length ∧ ∀ q, q ≠ p → l'[q]? = l[q]?) := by
+  simp only [assignPath] at hw
+  cases hl : h.lists[a]? with
+  | none => simp [hl] at hw
+  | some l =>
+    simp only [hl] at hw
+    cases hp : listPosition n l.length with
+    | none => simp [hp, stmtErr] at hw; cases cur <;> simp [mkErr, unexpected] at hw
+    | some p =>
+      simp [hp] at hw
+      subst hw
+      have ha : a < h.lists.length := (List.getElem?_eq_some_iff.mp hl).1
+      refine ⟨rfl, rfl, rfl, by simp, ?_, ?_⟩
+      · intro b hb; simp [Ne.symm hb]
+      · intro l0 l' p' h0 h1 hp'
+        simp at h0; subst h0
+        simp [ha] at h1; subst h1
+        rw [hp] at hp'; simp at hp'; subst hp'
+        refine ⟨by simp, ?_⟩
+        intro q hq; simp [Ne.symm hq]
+
+/-- frame for a one-level record write -/
+theorem write_frame_record (cur : List Stmt) (a : Nat) (k : Str) (v : Val) (h h' : Heap)
+    (hw : assignPath cur (.record a) [.key k] v h = .ok h') :
+    h'.lists = h.lists ∧ h'.freeLists = h.freeLists ∧ h'.freeRecords = h.freeRecords ∧ h'.records.length = h.records.length ∧
+    (∀ b, b ≠ a → h'.records[b]? = h.records[b]?) ∧
+    (∀ r r' k2, h.records[a]? = some r → h'.records[a]? = some r' → k2 ≠ k → assocGet r' k2 = assocGet r k2) := by
+  simp only [assignPath] at hw
+  cases hr : h.records[a]? with
+  | none => simp [hr] at hw
+  | some r =>
+    simp [hr] at hw
+    subst hw
+    have ha : a < h.records.length := (List.getElem?_eq_some_iff.mp hr).1
+    refine ⟨rfl, rfl, rfl, by simp, ?_, ?_⟩
+    · intro b hb; simp [Ne.symm hb]
+    · intro r0 r' k2 h0 h1 hk
+      simp at h0; subst h0
+      simp [ha] at h1; subst h1
+      exact assocGet_set_other _ k k2 v (Ne.symm hk)
+
+/-- a longer path is followed container by container: the first index selects the next container and
+    the write continues from there (lists and records in any mix) -/
+theorem assignPath_step_list (cur : List Stmt) (a : Nat) (n : Num.Bits) (ix : Index) (rest : List Index) (v c' : Val) (h : Heap)
+    (l : List Val) (p : Nat) (hl : h.lists[a]? = some l) (hp : listPosition n l.length = some p) (hc : l[p]? = some c') :
+    assignPath cur (.list a) (.pos n :: ix :: rest) v h = assignPath cur c' (ix :: rest) v h := by
+  simp [assignPath, hl, hp, hc]
+
+theorem assignPath_step_record (cur : List Stmt) (a : Nat) (k : Str) (ix : Index) (rest : List Index) (v c' : Val) (h : Heap)
+    (r : RecordObj) (hr : h.records[a]? = some r) (hc : assocGet r k = some c') :
+    assignPath cur (.record a) (.key k :: ix :: rest) v h = assignPath cur c' (ix :: rest) v h := by
+  simp [assignPath, hr, hc]
+
+/-- allocation hands out either a recycled free slot or a new slot at the end, stores the content
+    there and leaves every other slot alone (`hfree`: free indices are arena slots, an invariant
+    established by the sweep) -/
+theorem allocList_spec (h : Heap) (l : List Val) (hfree : ∀ i ∈ h.freeLists, i < h.lists.length) :
+    ∃ i, (h.allocList l).1 = .list i ∧ (h.allocList l).2.lists[i]? = some l ∧
+      (i = h.lists.length ∨ (h.freeLists.head? = some i ∧ (h.allocList l).2.freeLists = h.freeLists.tail)) ∧
+      (∀ j, j ≠ i → j < h.lists.length → (h.allocList l).2.lists[j]? = h.lists[j]?) ∧
+      (h.allocList l).2.records = h.records := by
+  unfold Heap.allocList
+  cases hf : h.freeLists with
+  | nil =>
+    refine ⟨h.lists.length, ?_⟩
+    simp
+    intro j hj hlt; simp [List.getElem?_append, hlt]
+  | cons i rest =>
+    have hi : i < h.lists.length := hfree i (by simp [hf])
+    refine ⟨i, ?_⟩
+    simp [hi]
+    intro j hj _; simp [Ne.symm hj]
+
+/-- `a + b` on lists: the result is a new list value whose cell is neither operand's cell when the
+    slot is new, so later growth or element replacement of the result does not show through the
+    operands (and vice versa, by the frame theorems) -/
+theorem concat_fresh (m : Meta) (i j : Nat) (a b : List Val) (h : Heap) (hi : h.lists[i]? = some a) (hj : h.lists[j]? = some b)
+    (hnofree : h.freeLists = []) :
+    ∃ k h', addSub .plus m (.list i) (.list j) h = .ok (.list k, h') ∧ k ≠ i ∧ k ≠ j ∧
+      h'.lists[k]? = some (a ++ b) ∧ h'.lists[i]? = some a ∧ h'.lists[j]? = some b := by
+  have hil : i < h.lists.length := (List.getElem?_eq_some_iff.mp hi).1
+  have hjl : j < h.lists.length := (List.getElem?_eq_some_iff.mp hj).1
+  refine ⟨h.lists.length, _, by simp [addSub, hi, hj, Heap.allocList, hnofree]; rfl, by omega, by omega, ?_, ?_, ?_⟩
+  · simp
+  · simp [List.getElem?_append, hil]; exact (List.getElem?_eq_some_iff.mp hi).2
+  · simp [List.getElem?_append, hjl]; exact (List.getElem?_eq_some_iff.mp hj).2
+end C06
+end Pakhi
